@@ -3210,7 +3210,10 @@ class _Simu(_IObserver, _params.Updatable, ABC):
             if isinstance(mesh, str):
                 mesh = Load_Mesh(Folder.Join(folder, mesh))
             path = mesh.Save(folder_meshes, f"mesh{i}")
-            list_mesh.append(Folder.os.path.relpath(path, folder))
+            # pinned at write time like the entries of `__list_results`, so a later change of `self.folder`
+            # (another `Save` included) doesn't desync them. `Folder.Join(folder, path)` returns an absolute
+            # `path` as is, and still resolves the folder-relative entries of older pickles.
+            list_mesh.append(Folder.os.path.abspath(path))
         self.__listMesh = list_mesh
 
         # Save simulation
